@@ -2,7 +2,9 @@ package main
 
 import (
 	"fmt"
+	"runtime"
 	"strconv"
+	"sync/atomic"
 
 	"github.com/songzhibin97/go-baseutils/base/bcomparator"
 	"github.com/songzhibin97/go-baseutils/structure/maps/skipmap"
@@ -188,7 +190,97 @@ func cmpPair(a, b pairKey) int {
 	return 0
 }
 
-var mapVariants = []string{"int64", "string", "int-reversed", "struct-func", "safe-int64"}
+// ---- user comparators that return MAGNITUDES (not just -1/0/+1) ----
+// The model only needs the comparator's ORDER: keys of the cases are the ranks (int64 codes) and every
+// variant's enc is strictly increasing w.r.t. its comparator, so the case type is unchanged. The
+// encodings below spread the codes so that the comparator returns -1, +1 and many other magnitudes.
+
+// strictly increasing, odd, differences 2, 4, 6, ...: f(z) = z*|z| + z
+func encSq(z int64) int64 {
+	if z < 0 {
+		return -z*z + z
+	}
+	return z*z + z
+}
+func decSq(k int64) int64 {
+	lo, hi := int64(-60000), int64(60000)
+	for lo < hi {
+		mid := lo + (hi-lo)/2
+		if encSq(mid) < k {
+			lo = mid + 1
+		} else {
+			hi = mid
+		}
+	}
+	if encSq(lo) != k {
+		panic(fmt.Sprintf("harness: undecodable key %d", k))
+	}
+	return lo
+}
+
+// mixed gaps 1,1,5,1,1,5,...: f(z) = z + 4*floor(z/3)   (returns -1 between some neighbours, -5.. between others)
+func encMix(z int64) int64 {
+	q := z / 3
+	if z%3 != 0 && z < 0 {
+		q--
+	}
+	return z + 4*q
+}
+func decMix(k int64) int64 {
+	lo, hi := int64(-60000), int64(60000)
+	for lo < hi {
+		mid := lo + (hi-lo)/2
+		if encMix(mid) < k {
+			lo = mid + 1
+		} else {
+			hi = mid
+		}
+	}
+	if encMix(lo) != k {
+		panic(fmt.Sprintf("harness: undecodable key %d", k))
+	}
+	return lo
+}
+
+// struct elements compared by subtracting a field
+type recKey struct {
+	id  int32
+	tag string
+}
+
+func encRec(z int64) recKey { return recKey{int32(3 * z), "r" + strconv.FormatInt(z, 10)} }
+func decRec(r recKey) int64 {
+	if r.id%3 != 0 {
+		panic("harness: undecodable struct key")
+	}
+	return int64(r.id / 3)
+}
+func cmpRecSub(a, b recKey) int { return int(a.id - b.id) }
+
+// a SLOW user comparator (a-b): every few calls it yields and spins for a moment. Comparators run inside
+// the optimistic searches, in particular in the search a remover repeats after it has marked its victim
+// and failed validation, so this widens the mark -> unlink and link -> fullyLinked windows from outside
+// the code under test (no hook needed).
+var slowCalls uint64
+
+func cmpSlowDiff(a, b int64) int {
+	n := atomic.AddUint64(&slowCalls, 1)
+	if n%5 == 0 {
+		runtime.Gosched()
+		spinFor(int(n % 4000))
+	}
+	return int(a - b)
+}
+
+func cmpDiff(a, b int64) int  { return int(a - b) }       // a-b
+func cmpDiff7(a, b int64) int { return int((a - b) * 7) } // scaled
+func cmpRevDiff(a, b int) int { return b - a }            // descending difference
+
+var mapVariants = []string{"int64", "string", "int-reversed", "struct-func", "safe-int64",
+	"int64 cmp=a-b", "int cmp=b-a", "int64 cmp=(a-b)*7", "struct cmp=a.id-b.id", "safe-int64 cmp=a-b", "int64 slow cmp=a-b"}
+
+// the variants without a mutex wrapper (used by the concurrent sections)
+var lockFreeVariants = []int{0, 10, 1, 5, 2, 10, 3, 6, 7, 10, 8}
 
 // extremes: whether the variant can take keys near the ends of int64
 func newMap(variant int) (m zmap, extremes bool) {
@@ -203,13 +295,26 @@ func newMap(variant int) (m zmap, extremes bool) {
 			func(z int64) int { return int(-z) }, func(k int) int64 { return int64(-k) }}, false
 	case 3:
 		return mapAd[pairKey]{skipmap.New[pairKey, int64](cmpPair), encPair, decPair}, false
+	case 5:
+		return mapAd[int64]{skipmap.New[int64, int64](cmpDiff), encMix, decMix}, false
+	case 6:
+		return mapAd[int]{skipmap.New[int, int64](cmpRevDiff),
+			func(z int64) int { return int(-encSq(z)) }, func(k int) int64 { return decSq(int64(-k)) }}, false
+	case 7:
+		return mapAd[int64]{skipmap.New[int64, int64](cmpDiff7), encSq, decSq}, false
+	case 8:
+		return mapAd[recKey]{skipmap.New[recKey, int64](cmpRecSub), encRec, decRec}, false
+	case 9:
+		return mapAd[int64]{skipmap.NewSafe[int64, int64](cmpDiff), encMix, decMix}, false
+	case 10:
+		return mapAd[int64]{skipmap.New[int64, int64](cmpSlowDiff), encMix, decMix}, false
 	default:
 		return mapAd[int64]{skipmap.NewSafe[int64, int64](bcomparator.Int64Comparator()),
 			func(z int64) int64 { return z }, func(k int64) int64 { return k }}, true
 	}
 }
 
-var setVariants = []string{"int64", "string", "int-reversed", "struct-func", "safe-int64"}
+var setVariants = mapVariants
 
 func newSet(variant int) (s zset, extremes bool) {
 	switch variant {
@@ -223,6 +328,19 @@ func newSet(variant int) (s zset, extremes bool) {
 			func(z int64) int { return int(-z) }, func(k int) int64 { return int64(-k) }}, false
 	case 3:
 		return setAd[pairKey]{skipset.New[pairKey](cmpPair), encPair, decPair}, false
+	case 5:
+		return setAd[int64]{skipset.New[int64](cmpDiff), encMix, decMix}, false
+	case 6:
+		return setAd[int]{skipset.New[int](cmpRevDiff),
+			func(z int64) int { return int(-encSq(z)) }, func(k int) int64 { return decSq(int64(-k)) }}, false
+	case 7:
+		return setAd[int64]{skipset.New[int64](cmpDiff7), encSq, decSq}, false
+	case 8:
+		return setAd[recKey]{skipset.New[recKey](cmpRecSub), encRec, decRec}, false
+	case 9:
+		return setAd[int64]{skipset.NewSafe[int64](cmpDiff), encMix, decMix}, false
+	case 10:
+		return setAd[int64]{skipset.New[int64](cmpSlowDiff), encMix, decMix}, false
 	default:
 		return setAd[int64]{skipset.NewSafe[int64](bcomparator.Int64Comparator()),
 			func(z int64) int64 { return z }, func(k int64) int64 { return k }}, true
